@@ -282,8 +282,14 @@ fn in_process(plan: &Plan) -> Judged {
 							}
 						}
 						let _ = std::fs::write(&seg, &orig);
-						for _ in 0..3 {
-							tokio::task::yield_now().await;
+						// half of the time the next open follows at once ("strict first, then
+						// tolerant" fallback code does that): the failed open must have let go of
+						// the directory by the time it returned, not when the runtime gets round
+						// to reaping its tasks
+						if rng.chance(1, 2) {
+							for _ in 0..3 {
+								tokio::task::yield_now().await;
+							}
 						}
 						match open_store(&opts, &dir) {
 							Ok(t) => {
